@@ -479,6 +479,10 @@ def play(world, ops, by):
                     LOG("return", op="second_accept", by=by, gen=world.gen)
             elif kind == "gc":
                 gc.collect()
+            elif kind == "drop_service":
+                LOG("call", op="drop_service", pid="svc:%s" % op[1], by=by, gen=world.gen)
+                world.instances.pop(op[1], None)
+                gc.collect()
             elif kind == "thread":
                 t = threading.Thread(target=play, args=(world, op[1], "%s/helper%d" % (by, id(op) % 1000)), daemon=True)
                 t.start()
